@@ -294,6 +294,9 @@ func c03Alpha(c *core.Ctx) {
 		var hs_ []Hash
 		if nd := f.Nodes[t]; nd != nil {
 			hs_ = append(hs_, nd.Hash)
+			near := nd.Hash // equal to the true hash in all but the last bit
+			near[31] ^= 1
+			hs_ = append(hs_, near)
 		}
 		if nd := f.Nodes[t^1]; nd != nil {
 			hs_ = append(hs_, nd.Hash)
